@@ -5,19 +5,19 @@ HERE = os.path.dirname(os.path.dirname(os.path.abspath(__file__)))
 
 META = {
  "C01": ("refusal guards dominate evaluation; reduction keeps every factor and folded constant; stacked/keyword views use one name/size table",
-         "CFG dominance + def-use provenance on semantics-preserving normal forms + who-may-write rule for the folded constant + who-may-construct table for Posterior + late-binding closure lint over the conditioning code + name-preservation rule for forwarded values (ast)"),
+         "CFG dominance + def-use provenance on semantics-preserving normal forms + who-may-write rule for the folded constant + who-may-construct table for Posterior + late-binding closure lint over the conditioning code + name-preservation rule for forwarded values + path reachability rules for leftover keywords (no exit before / without the refusal) + who-may-call rule for the raw evaluation `_logd` (ast)"),
  "C02": ("accept branch of all 8 Metropolis kernels: finite guard, paired state/cache update from the same proposal, sign of the log-ratio terms, symmetric-proposal precondition, pCN form",
-         "CFG guard analysis + def-use provenance + sign/dependence lattice + point/cache coherence of every cached-evaluation write (point and evaluating function) + store/validate ordering with rollback for configured proposals (ast)"),
+         "CFG guard analysis + def-use provenance + sign/dependence lattice + point/cache coherence of every cached-evaluation write (point and evaluating function) + store/validate ordering with rollback for configured proposals + who-may-write rule for the current point outside the kernels (ast)"),
  "C03": ("gradient depends on every parameter the log-density combines with x; 'not available' is a raise on every path; chain-rule guards dominate; support predicates agree; FD switch differentiates logd",
          "backward dependence slices + CFG fall-through analysis + Gram-orientation classification + cache-coherence rule + decision table / closed form of Model.gradient and of the scalar difference quotient + radicand agreement between gradient and log-density closed forms + integer-dtype lint with positive control + aggregation polarity of support tests + same-orientation application of a square root (ast)"),
  "C04": ("property getter/setter wiring; CDF aggregation by product; Gaussian shape-dispatch helpers assign every returned name and agree on the sign of logdet; un-normalised = normalised - constant",
-         "property-table lint + definite assignment + sign lattice + Gram-orientation def-use rule + exact-shortcut-guard lint + mirror-refresh predicate table + guard rule for determinants read off a diagonal + integer-dtype lint with positive control + closed outcomes of the un-normalised density over all paths + argument-unit lint for Gaussian tail functions (ast)"),
+         "property-table lint + definite assignment + sign lattice + Gram-orientation def-use rule + exact-shortcut-guard lint + mirror-refresh predicate table + guard rule for determinants read off a diagonal + integer-dtype lint with positive control + closed outcomes of the un-normalised density over all paths + argument-unit lint for Gaussian tail functions + abstract interpretation of the covariance-conversion helpers in the scale-degree domain (ast)"),
  "C05": ("generator discipline in every _sample (global NumPy stream only when rng is None); sampler reads the density's parameters; triangular-solve orientation matches its guard; wrapper refuses conditionals and wraps with the geometry",
-         "path-sensitive CFG rule + dependence comparison + cache-coherence + exact-shortcut-guard lint + shape rule on closed forms per path (single right-hand side) + global-RNG re-seeding lint with positive control + additive-location rule on expression trees of the direct samplers (ast)"),
+         "path-sensitive CFG rule + dependence comparison + cache-coherence + exact-shortcut-guard lint + shape rule on closed forms per path (single right-hand side) + global-RNG re-seeding lint with positive control + additive-location rule on expression trees of the direct samplers + column-fill rule (loop bounds against the allocation) (ast)"),
  "C06": ("stacked RTO/UGLA operator: adjoint branch is the blockwise transpose of the forward branch with the same scalars and slices; right-hand side whitened like the operator; step shape",
          "expression-tree factor-chain comparison between sibling branches + closed forms of the prior factors + definite assignment of operator and right-hand side + path walk of the 5-tuple set-up + stored-as-given rule for solver budgets + late-binding closure capture lint with positive control (ast)"),
  "C07": ("representation typestate of Model/LinearModel: raw operators only see function values, results converted to parameters once, dual quantities converted only under the identity-geometry guard or via geometry.gradient",
-         "typestate / guard-dominance over _model.py + end-of-path object state of LinearModel.__init__ (closures compared by body) + padding-mode/adjoint table for the shipped 2-D convolution pair + late-binding capture lint + tolerance-selected-shortcut lint with positive control (ast)"),
+         "typestate / guard-dominance over _model.py + end-of-path object state of LinearModel.__init__ (closures compared by body) + padding-mode/adjoint table for the shipped 2-D convolution pair + late-binding capture lint + tolerance-selected-shortcut lint with positive control + who-may-write rule for the operator handles + cache-coherence rule over the model layer + forward-only assembly rule for get_matrix (ast)"),
  "C08": ("leapfrog data flow, slice/divergence indicators, subtree selection ratio and update order, top-level accept guard and paired cache update, dual-averaging dependence sets, in both NUTS implementations",
          "reaching-definition provenance + CFG guard analysis on metavariable patterns over normal forms + case tables + end-of-path state of the initialisers + point/cache coherence (ast)"),
  "C09": ("sweep iterates all parameter names, conditions on the live value mapping, writes back before the next block, stores after the sweep; target-derived caches are recomputed after re-targeting",
@@ -27,23 +27,23 @@ META = {
  "C11": ("no in-place or attribute write of the read API reaches a non-fresh object; conditioning returns fresh objects; copy-before-write; name survives copies",
          "alias/freshness + effect analysis over the read-API closure + cache coherence of the accepted lazy caches through shallow copies + may-alias rule for sampler writes into target-owned objects with positive control (ast)"),
  "C12": ("inputs converted to function values exactly once according to the carried flag, outputs to parameters once; Samples/CUQIarray flags honoured; gradient guards; distribution branch only renames a copy",
-         "typestate / provenance and decision tables (closed returned expression per valuation) over Model._apply_func/_2fun/_2par/gradient + tolerance-selected-shortcut lint (ast)"),
+         "typestate / provenance and decision tables (closed returned expression per valuation) over Model._apply_func/_2fun/_2par/gradient + tolerance-selected-shortcut lint + dynamic-attribute (`__getattr__`) lint for classes probed with hasattr, with positive control + decision table of Geometry.__eq__ (ast)"),
  "C13": ("conversion table of Samples/CUQIarray; par2fun and fun2par defined together; symmetric options; step-expansion intervals use complementary comparisons",
-         "decision tables of the converters (loops stepped over and inspected as objects) + sibling-agreement lint over geometry classes (incl. vec2fun/par2fun outcome tables per option value) + MRO rule for wrapper shapes + axis lint for reductions inside geometry maps with positive control (ast)"),
+         "decision tables of the converters (loops stepped over and inspected as objects) + sibling-agreement lint over geometry classes (incl. vec2fun/par2fun outcome tables per option value) + MRO rule for wrapper shapes + axis lint for reductions inside geometry maps with positive control + one-partition rule for the two directions of StepExpansion (ast)"),
  "C14": ("checkpoint payload ⊇ loop-carried state; history unaliased; one transition/record/callback per iteration; config/state separation; key-set symmetry; initialisation-time randomness in the payload; legacy chain layout",
          "interprocedural attribute effect analysis (upward-exposed reads vs must-writes), may-alias analysis incl. ownership of kernel arguments across calls and of arrays handed to the solvers (views through to_numpy), CFG loop-shape rules on substituted views, deep effect scan outside the Gibbs sweep loops, who-may-define rule for the chain loop, purity of the read accessors (effect summaries) (ast)"),
  "C15": ("closed-form MAP normalises every stored covariance form; function and gradient negated together; MAP and covariance built from the same matrices",
          "shape-dispatch completeness over four storage forms (path walk per valuation) + paired-negation rules + Gram-orientation of compute_cov + who-may-write rule for the stored covariance with dominance of the sqrtprec store + all-path outcomes of ML + alias analysis (ast)"),
  "C16": ("matrix form and function form of every solver step are the same expression under A@v<->A(v,1), A.T@v<->A(v,2); x0/b/A never modified in place; paired negation; SciPy result passed through; projection/prox one-liners",
-         "expression equivalence modulo operator form on if/else normal forms + closed forms / case tables of the small operators + end-of-path state of maximize + alias analysis + trial-twin unification for the LM accept branch (ast)"),
+         "expression equivalence modulo operator form on if/else normal forms + closed forms / case tables of the small operators + end-of-path state of maximize + alias analysis + trial-twin unification for the LM accept branch + floor agreement of every damping increase (also inside local closures) (ast)"),
  "C17": ("exactData = model.forward(exactSolution) with the likelihood's model; data derived from it; noise level used with consistent degree; column assembly; exhaustive option chains",
-         "def-use provenance in the test-problem constructors + path-sensitive option dispatch (refusal of unknown values, BC-to-mode table) + truthiness-default lint with positive control + abstract interpretation of PSF grid index arithmetic in an affine-with-parity domain + comparison-orientation rule for the defocus support + global-RNG re-seeding lint with positive control (ast)"),
+         "def-use provenance in the test-problem constructors + path-sensitive option dispatch (refusal of unknown values, BC-to-mode table) + truthiness-default lint with positive control + abstract interpretation of PSF grid index arithmetic in an affine-with-parity domain + comparison-orientation rule for the defocus support + global-RNG re-seeding lint with positive control + no-write rule between assembly of the matrix and the LinearModel (ast)"),
  "C18": ("assemble -> solve -> observe data flow; per-step assembly and dt from the loop index; restriction only when grids/times coincide; solver tuple unpacking; gradient dispatch",
          "ordering/dominance + loop dependence rules + decision tables of observe / time_obs / solver defaults (end-of-path state) + tolerance-selected-shortcut lint (ast)"),
  "C19": ("sample axis is the last axis everywhere; burnthin slices a copy and refuses Nb>=Ns; statistics are the named NumPy reductions; interval bounds ordered; chains zipped in index order",
-         "axis-convention lint + decision tables of the Samples converters + alias analysis + interprocedural read-only rule for the stored chain (unconditional callee writes) (ast)"),
+         "axis-convention lint + decision tables of the Samples converters + alias analysis + interprocedural read-only rule for the stored chain (unconditional callee writes) + argument-forwarding rule between statistics (ast)"),
  "C20": ("precision operator is D.T @ D of the same D; MRF log-densities act on x - location; boundary-condition tables agree between GMRF and the operators; one Cholesky source; 2-D Kronecker stacking siblings agree",
-         "closed-form comparison of the MRF log-densities + order/boundary decision tables + integer evaluation of the reported rank against the operators' null-space table + shared-matrix mutation lints (memoised results, foreign accessors, module-level keyed caches) with positive controls (ast)"),
+         "closed-form comparison of the MRF log-densities + order/boundary decision tables + integer evaluation of the reported rank against the operators' null-space table + shared-matrix mutation lints (memoised results, foreign accessors, module-level keyed caches) with positive controls + row-count table of the difference operators per (order, boundary) read off the slices (ast)"),
 }
 
 def main():
